@@ -108,7 +108,8 @@ impl HtxFile {
         if file_length.is_zero() {
             //
             let buckets_size = match params.buckets_size {
-                HashBucketsParam::BucketsSize(x) => x.next_power_of_two(),
+                // minimum buckets size is 8 (one byte of the occupancy bitmap).
+                HashBucketsParam::BucketsSize(x) => x.next_power_of_two().max(8),
                 HashBucketsParam::Capacity(x) => capacity_to_buckets_size(x),
                 HashBucketsParam::Default => DEFAULT_HT_SIZE,
             };
